@@ -34,6 +34,12 @@ def base_patterns():
     out.append(("noconn", U.design({"Inner": inner, "Top": top}), ["i0_a"], []))
     top = U.mod([U.sig("s")], [U.inst("i0", "Inner", [("a", Nc(1, "open"))]), U.inst("i1", "Inner", [("a", Sig("s"))])])
     out.append(("named_noconn", U.design({"Inner": inner, "Top": top}), ["open"], []))
+    # P2b: two invented names that coincide WITH EACH OTHER: the implicit signals of a.b_c and of a_b.c are both a_b_c; two no-connects given one name
+    ca, cc = U.mod([U.sig("b_c", 1, True)]), U.mod([U.sig("c", 1, True)])
+    top = U.mod([U.sig("s")], [U.inst("a", "CA", []), U.inst("a_b", "CC", []), U.inst("j1", "CA", [("b_c", Pref("a", "b_c"))]), U.inst("j2", "CC", [("c", Pref("a_b", "c"))])])
+    out.append(("twin_portref", U.design({"CA": ca, "CC": cc, "Top": top}), ["a_b_c"], []))
+    top = U.mod([U.sig("s")], [U.inst("i0", "Inner", [("a", Nc(1, "open"))]), U.inst("i1", "Inner", [("a", Nc(2, "open"))]), U.inst("i2", "Inner", [("a", Sig("s"))])])
+    out.append(("twin_noconn", U.design({"Inner": inner, "Top": top}), ["open"], []))
     # P3: internal bundle instances, flat and nested
     cb = U.mod([], U.bprobes("bp", B1L), [U.bnd("bp", "B1", port=True)])
     top = U.mod([U.sig("s")], [U.inst("k", "CB", [("bp", Bund("b"))])] + U.bprobes("b", B1L), [U.bnd("b", "B1")])
@@ -120,6 +126,7 @@ def relabel(pattern, D, inv_sigs, inv_insts, max_us=2, pairs=False):
     for target in targets:
         for extra_us in range(max_us + 1):
             names = [t + "_" * k for t in target.split("+") for k in range(extra_us + 1)]          # target, target_, target__ all taken
+            names = list(dict.fromkeys(names))      # (two invented names that differ by underscores only - bufs_clk, bufs_clk_ - give one list)
             for kind in ("signal", "signal2", "instance", "bundle", "array"):
                 for order in ("before", "after"):
                     D2 = copy.deepcopy(D)
@@ -228,7 +235,7 @@ def run(tier, seed, replay_file=None):
             feats = ["pattern_" + case["pattern"], "kind_" + case["kind"], "order_" + case["order"]]
             meta = {k: case[k] for k in ("pattern", "target", "taken", "kind", "order")}
             o.violations.append(Violation(clause=c, case=case, features=feats, detail={"meta": meta, "exc": evs[i]["exc"], "P": evs[i]["P"]} if len(o.violations) < 20 else None))
-    o.required_cover = ["ok_kept"] + ["pattern_" + p for p in ("portref", "noconn", "named_noconn", "bundle", "nested_bundle", "self_colliding_bundle", "array", "pair", "instbundle", "portref_bundle", "noconn_bundle")]
+    o.required_cover = ["ok_kept"] + ["pattern_" + p for p in ("portref", "noconn", "named_noconn", "bundle", "nested_bundle", "self_colliding_bundle", "array", "pair", "instbundle", "portref_bundle", "noconn_bundle", "twin_portref", "twin_noconn")]
     rnd = random.Random(seed)
     for i in rnd.sample(range(len(cases)), 2):
         o.samples.append({k: cases[i][k] for k in ("pattern", "target", "taken", "kind", "order")} | {"verdict": verdicts[i], "renamed": evs[i]["renamed"]})
